@@ -146,6 +146,7 @@ func (g *Gen) CallProgram() *Chunk {
 			ev = append(ev, N(p))
 		}
 		usesDots := false
+		var argMut []Stmt
 		if va {
 			switch g.R.Intn(6) {
 			case 4, 5:
@@ -177,7 +178,13 @@ func (g *Gen) CallProgram() *Chunk {
 				g.cover("callee:dots")
 			case 1:
 				// compatibility arg table (only exists when `...` is not mentioned)
-				ev = append(ev, Dot(N("arg"), "n"), Idx(N("arg"), Num(1)), Idx(N("arg"), Num(2)), Idx(N("arg"), Num(3)))
+				ev = append(ev, Dot(N("arg"), "n"), Idx(N("arg"), Num(1)), Idx(N("arg"), Num(2)), Idx(N("arg"), Num(3)), Dot(N("arg"), "left"))
+				// every call gets a table of its own: what one call leaves in it is gone in the next
+				argMut = []Stmt{
+					Assign1(Dot(N("arg"), "left"), Str("by:"+name)),
+					Assign1(Idx(N("arg"), Bin("+", Dot(N("arg"), "n"), Num(1))), Str("appended")),
+					Assign1(Dot(N("arg"), "n"), Bin("+", Dot(N("arg"), "n"), Num(1))),
+				}
 				g.cover("callee:argtable")
 			case 2:
 				usesDots = true
@@ -194,6 +201,7 @@ func (g *Gen) CallProgram() *Chunk {
 			}
 		}
 		body.Stmts = append(body.Stmts, CallSN("emit", ev...))
+		body.Stmts = append(body.Stmts, argMut...)
 		// results
 		nr := g.R.Intn(4)
 		rets := g.valList(nr, sigs, va && usesDots, 1)
